@@ -91,7 +91,8 @@ fn resolve_style_references(
                     break;
                 }
                 None => {
-                    let style = parse_as_reference_to_git_config(node, opt);
+                    let style =
+                        parse_as_reference_to_git_config(node, opt.computed.true_color, opt);
                     resolved_styles.extend(visited.iter().map(|node| (node.to_string(), style)));
                     break;
                 }
@@ -107,16 +108,18 @@ fn parse_as_style_or_reference_to_git_config(
     opt: &cli::Opt,
 ) -> Style {
     match style_from_str(style_string, None, None, true_color, opt.git_config()) {
-        StyleReference::Reference(style_ref) => parse_as_reference_to_git_config(&style_ref, opt),
+        StyleReference::Reference(style_ref) => {
+            parse_as_reference_to_git_config(&style_ref, true_color, opt)
+        }
         StyleReference::Style(style) => style,
     }
 }
 
-fn parse_as_reference_to_git_config(style_string: &str, opt: &cli::Opt) -> Style {
+fn parse_as_reference_to_git_config(style_string: &str, true_color: bool, opt: &cli::Opt) -> Style {
     if let Some(git_config) = opt.git_config() {
         let git_config_key = format!("delta.{style_string}");
         match git_config.get::<String>(&git_config_key) {
-            Some(s) => Style::from_git_str(&s),
+            Some(s) => Style::from_str(&s, None, None, true_color, None),
             _ => fatal(format!(
                 "Style key not found in git config: {git_config_key}",
             )),
